@@ -141,6 +141,11 @@ MALFORMED = [
 _ALPHABET = "0123456789" * 3 + "--++::..,TZWWzt \x00xé€\U0001f600\ud800"
 
 
+#: datetimes that fulfil one of the constraints, with white space around them: such a string is not a datetime with offset (the library parser rejects it)
+PADDED = [pre + d + post for d in ("2022-06-01T00:00:00+02:00", "2022-01-01T05:00:00Z", "2021-12-31T23:00:00+00:00", "2022-06-01T04:00:00Z", "2022-06-01T12:00:00+00:00")
+          for pre, post in ((" ", ""), ("", " "), ("", "\n"), ("\t", ""), ("", "\xa0"), (" ", " "), ("\r\n", ""))]
+
+
 def mutate(rng, s):
     s = list(s)
     for _ in range(rng.choice((1, 1, 1, 2, 2, 3))):
@@ -373,7 +378,7 @@ def run(ctx):
         meta.append((s, obs, what))
 
     # --- 1. the malformed stream and the edges of the representable range (first: these name the classic witnesses)
-    stream = list(MALFORMED)
+    stream = list(MALFORMED) + PADDED
     for _ in range(1500 if ctx.quick else 30000):
         s = random_spelling(rng)
         if rng.random() < 0.6:
@@ -427,7 +432,7 @@ def run(ctx):
                     n_dense += 1
 
     # --- 4. the same answers through the dispatch by key (FcEvaluator.evaluate_single_format_constraint)
-    n_dispatch = _dispatch_check(ctx, ev, [m[0] for m in meta[:: max(1, len(meta) // 150)]])
+    n_dispatch = _dispatch_check(ctx, ev, PADDED + [m[0] for m in meta[:: max(1, len(meta) // 150)]])
 
     # --- correspondence in Coq
     n, bad, err = runner.run_case_files("C20", IMPORTS, "time_case", "time_check", cases)
